@@ -7,7 +7,8 @@
    results for every shape and every argument vector of the tier.
 3. TLC model-checks the rule set itself (spec/OptionsMC.tla): one state per (shape, argv), design
    invariants ConsumedExactlyOnce / OptionValueNotPositional / FlagNeverFails / HelpLaw; vacuity
-   guards (three re-introduced defects must violate the named invariant); four stronger readings
+   guards (nine re-introduced defects - three in the consumption rules, six in the propagation of
+   option names into the parse context - must violate the named invariant); four stronger readings
    are run for information and their counterexamples recorded (never a verdict).
 4. spec/OptionsJudge.tla (TLC) judges every recorded constructor outcome / parse result.
 ASan/UBSan reports of the harness are turned into rejected records (observed, not decided)."""
@@ -89,6 +90,10 @@ def model_check(ctx, js, thorough):
     jobs += [("bug", "MC_Options_bug_nextarg.cfg", mc_env(), 1, "OptionValueNotPositional"),
              ("bug", "MC_Options_bug_useflag.cfg", mc_env(), 1, "ConsumedExactlyOnce"),
              ("bug", "MC_Options_bug_optional.cfg", mc_env(), 1, "ConsumedExactlyOnce")]
+    # ... and so must dropping any composite's contribution to option_names() (parse context)
+    jobs += [("bug", "MC_Options_bug_names_%s.cfg" % b, mc_env(), 1, "OptionValueNotPositional")
+             for b in ("sum_left_only", "sum_right_only", "product_left_only", "product_right_only",
+                       "optional_none", "many_none")]
     # (c) stronger readings, for information
     jobs += [("obs", "MC_Options_obs_dropped.cfg", mc_env(), 1, "ObsNothingDropped"),
              ("obs", "MC_Options_obs_flagstrict.cfg", mc_env(), 1, "ObsFlagNeverFailsStrict"),
@@ -101,7 +106,7 @@ def model_check(ctx, js, thorough):
             return job, vlib.tlc_mc(ctx, "OptionsMC", cfg, workers=workers, env=env, timeout=1500)
         return job, vlib.tlc("OptionsMC", cfg, workers=workers, env=env, timeout=1500)
 
-    results = vlib.parallel(one, jobs, workers=6)
+    results = vlib.parallel(one, jobs, workers=8)
     for (kind, cfg, env, workers, inv), r in results:
         if kind == "bug":
             if inv not in r.invariant_violated:
